@@ -46,12 +46,12 @@ pub enum Via {
     ClonedLayer,
 }
 
-type Req = (u32, Outcome);
-const RES: &str = "c20-res";
+pub type Req = (u32, Outcome);
+pub const RES: &str = "c20-res";
 
 #[derive(Clone)]
-struct Inner {
-    calls: Arc<AtomicUsize>,
+pub struct Inner {
+    pub calls: Arc<AtomicUsize>,
 }
 struct Mock {
     id: u32,
@@ -84,10 +84,10 @@ impl Service<Req> for Inner {
         Box::pin(Mock { id: r.0, o: r.1, polled: false })
     }
 }
-fn extract(_r: &Req) -> String {
+pub fn extract(_r: &Req) -> String {
     RES.to_string()
 }
-fn fb_ok(_r: &Req, _e: sentinel_core::Error) -> Result<u32, BoxError> {
+pub fn fb_ok(_r: &Req, _e: sentinel_core::Error) -> Result<u32, BoxError> {
     Ok(9999)
 }
 fn fb_err(_r: &Req, _e: sentinel_core::Error) -> Result<u32, BoxError> {
